@@ -38,6 +38,19 @@ def flavour_batch():
         for off in offsets:
             m.add_func('i' + t, '', (), local_get(0) + local_get(1) + memop(code, 0, off), export='f%d' % k)
             cases.append(Case('f%d' % k, 'i' + t, 'v', 1 if t in 'if' else 2, -1, '%s offset=%d' % (nm, off))); k += 1
+    # every load with its result ABOVE another operand of a different type and consumed by a further instruction (a result that is returned at
+    # once sits in slot 0, which the function's return declares anyway); every store with operands above another operand
+    other = {'i': 'I', 'I': 'i', 'f': 'F', 'F': 'f'}
+    for code, (nm, t, w) in sorted(LOADS.items()):
+        o = other[t]
+        cmp_ = {'i': 0x46, 'I': 0x51, 'f': 0x5b, 'F': 0x61}[t]      # eq of the loaded type: leaves an i32
+        body = const(o, 5) + local_get(0) + memop(code, 0, 4) + const(t, 0x80 if t in 'iI' else 0) + op(cmp_) + local_set(0) + DROP + local_get(0)
+        m.add_func('i', 'i', (), body, export='f%d' % k)
+        cases.append(Case('f%d' % k, 'i', 'i', 0, -1, '%s above an operand of another type, result compared' % nm)); k += 1
+    for code, (nm, t, w) in sorted(STORES.items()):
+        o = other[t]
+        m.add_func('i' + t, o, (), const(o, 9) + local_get(0) + local_get(1) + memop(code, 0, 4), export='f%d' % k)
+        cases.append(Case('f%d' % k, 'i' + t, o, 1 if t in 'if' else 2, -1, '%s above an operand of another type' % nm)); k += 1
     b = Batch(m.encode(), cases, inputsets)
     b.impl_mem = 'ls_cur_inst->m0'
     b.compare_mem = True
